@@ -186,6 +186,8 @@ Section Sim.
 
   Lemma hd_error_close (tr cl rest : str) c : hd_error (tr ++ c :: cl ++ rest) = hd_error (tr ++ c :: cl).
   Proof. destruct tr; reflexivity. Qed.
+  Lemma hd_error_app2 (tr x y : str) c : hd_error (tr ++ c :: x) = hd_error (tr ++ c :: y).
+  Proof. destruct tr; reflexivity. Qed.
 
   (** ** a braced group, from its opening brace *)
   Lemma grp_run n : SimN n -> forall ps p0 ws b tr rest,
@@ -224,4 +226,132 @@ Section Sim.
     replace (p0 + 1 + length (unparse_items b) + length tr + 1) with (S (pb + length tr)) by (unfold pb; lia).
     reflexivity.
   Qed.
-End Sim.
+
+  (** ** math, from its opening delimiter *)
+  Lemma math_run n : SimN n -> forall ps p0 ws k b tr rest,
+    Std cx ps -> f_in_math (ps_f ps) = false -> lsize b <= n ->
+    ws_ok tr = true ->
+    ok_items cx (ps_enter_math ps (Some (m_open k))) b (hd_error (tr ++ m_close k)) = true ->
+    (k = MDollar -> hd_not (fun c => N.eqb c 36) (unparse_items b ++ tr ++ m_close k ++ rest)) ->
+    skipn p0 s = m_open k ++ unparse_items b ++ tr ++ m_close k ++ rest ->
+    R (3 + 8 * length (unparse_items b)) (TMath ps (m_open k) p0)
+    = Ok (ONode (node_of cx ps p0 (Math ws k b tr)))
+         (p0 + length (m_open k) + length (unparse_items b) + length tr + length (m_close k)).
+  Proof.
+    intros IH ps p0 ws k b tr rest SD M SZ W OKB DL SK. pose proof (std_view_of cx ps SD) as V.
+    set (mps := ps_enter_math ps (Some (m_open k))) in *.
+    assert (SD' : Std cx mps) by (apply std_enter_math; exact SD).
+    pose proof (std_view_of cx mps SD') as V'.
+    assert (M' : f_in_math (ps_f mps) = true) by (apply enter_math_fields).
+    pose proof (expect_enter ps k (proj1 SD)) as E. fold mps in E.
+    assert (T1 : impl_peek ps s p0 = TokOk (mk (m_tok k) (m_open k) p0 (p0 + length (m_open k)) [] [])).
+    { pose proof (dispatch_math_open cx ps V s p0 [] k _ M DL) as D.
+      destruct k; cbn [m_open app] in SK.
+      - rewrite (impl_peek_dispatch ps s p0 [] 36%N _ eq_refl SK space_36). cbn [length]. rewrite Nat.add_0_r. exact D.
+      - rewrite (impl_peek_dispatch ps s p0 [] 92%N _ eq_refl SK space_92). cbn [length]. rewrite Nat.add_0_r. exact D.
+      - rewrite (impl_peek_dispatch ps s p0 [] 92%N _ eq_refl SK space_92). cbn [length]. rewrite Nat.add_0_r. exact D. }
+    set (st0 := p0 + length (m_open k)).
+    set (pb := st0 + length (unparse_items b)).
+    assert (SKb : skipn st0 s = unparse_items b ++ tr ++ m_close k ++ rest) by (apply skipn_shift in SK; exact SK).
+    assert (SKc : skipn pb s = tr ++ m_close k ++ rest) by (apply skipn_shift in SKb; exact SKb).
+    assert (T2 : impl_peek mps s pb
+                 = TokOk (mk (m_tok k) (m_close k) (pb + length tr) (pb + length tr + length (m_close k)) tr [])).
+    { destruct k; cbn [m_close app] in SKc.
+      - rewrite (impl_peek_dispatch mps s pb tr 36%N _ W SKc space_36).
+        exact (dispatch_math_close cx mps V' s _ tr _ _ 36%N [] rest M' E eq_refl (or_introl eq_refl)).
+      - rewrite (impl_peek_dispatch mps s pb tr 92%N _ W SKc space_92).
+        exact (dispatch_math_close cx mps V' s _ tr _ _ 92%N [41%N] rest M' E eq_refl (or_intror eq_refl)).
+      - rewrite (impl_peek_dispatch mps s pb tr 92%N _ W SKc space_92).
+        exact (dispatch_math_close cx mps V' s _ tr _ _ 92%N [93%N] rest M' E eq_refl (or_intror eq_refl)). }
+    set (A := absorb cx mps st0 cs_empty b).
+    assert (SM : stop_matches (g_stop (math_opts k))
+                   (mk (m_tok k) (m_close k) (pb + length tr) (pb + length tr + length (m_close k)) tr []) = true)
+      by (destruct k; reflexivity).
+    pose proof (rule_stop s cx 0 mps (math_opts k) (fst A) pb _ (opts_ok_math mps k M') T2 SM) as S1.
+    cbn [mk tpre tpos] in S1. rewrite Nat.add_sub in S1.
+    assert (S2 : R (1 + 8 * length (unparse_items b)) (TCollect mps (math_opts k) cs_empty st0)
+                 = Ok (OColl (close_state mps (fst A) tr pb)
+                             (Some (mk (m_tok k) (m_close k) (pb + length tr) (pb + length tr + length (m_close k)) tr []))
+                             false false) (pb + length tr)).
+    { apply (IH b SZ mps (math_opts k) cs_empty st0 (tr ++ m_close k ++ rest) 1 _ SD' (opts_ok_math mps k M'));
+        [discriminate| |exact SKb|exact S1].
+      destruct k; cbn [m_close app] in *; [rewrite (hd_error_app2 tr rest [] 36%N)
+                                          |rewrite (hd_error_app2 tr (41%N :: rest) [41%N] 92%N)
+                                          |rewrite (hd_error_app2 tr (93%N :: rest) [93%N] 92%N)]; exact OKB. }
+    pose proof (rule_general_stop s cx _ mps (math_opts k) st0 _ _ _ eq_refl eq_refl eq_refl S2) as S3.
+    cbn [mk tend] in S3.
+    pose proof (rule_tmath s cx _ ps k p0 _ _ _ T1 E S3) as S4.
+    replace (3 + 8 * length (unparse_items b)) with (S (S (1 + 8 * length (unparse_items b)))) by lia.
+    rewrite S4, node_of_math. cbn zeta. fold mps. fold st0. fold A.
+    assert (PA : snd A = pb) by (unfold A; rewrite absorb_pos; reflexivity). rewrite PA.
+    reflexivity.
+  Qed.
+
+  (** ** the arguments of a macro call *)
+  Lemma ok_args_length ps args : forall l, ok_args cx ps args l = true -> length args = length l.
+  Proof.
+    induction args as [|a args IH]; intros [|spc l] H; try discriminate; [reflexivity|].
+    cbn [ok_args] in H. apply andb_true_iff in H. destruct H as [_ H]. cbn [length]. f_equal. apply IH. exact H.
+  Qed.
+
+  Lemma ilen_grp ws b tr : ilen (Grp ws b tr) = length ws + 1 + length (unparse_items b) + length tr + 1.
+  Proof.
+    unfold ilen, unparse_items. cbn [unparse_item]. rewrite app_length. cbn [length].
+    rewrite !app_length. cbn [length]. lia.
+  Qed.
+  Lemma ilen_math ws k b tr :
+    ilen (Math ws k b tr) = length ws + length (m_open k) + length (unparse_items b) + length tr + length (m_close k).
+  Proof. unfold ilen, unparse_items. cbn [unparse_item]. rewrite !app_length. lia. Qed.
+  Lemma ilen_mac ws name post args :
+    ilen (Mac ws name post args) = length ws + 1 + length name + length post + length (unparse_items args).
+  Proof.
+    unfold ilen, unparse_items. cbn [unparse_item]. rewrite app_length. cbn [length]. rewrite !app_length. lia.
+  Qed.
+
+  Lemma args_run n : SimN n -> forall args l ps acc pa fol,
+    Std cx ps -> lsize args <= n -> ok_args cx ps args l = true ->
+    skipn pa s = unparse_items args ++ fol ->
+    R (1 + 8 * length (unparse_items args)) (TArgs ps l acc pa)
+    = Ok (OArgs (Some ([], acc ++ fst (arg_nodes cx ps pa args l)))) (pa + length (unparse_items args)).
+  Proof.
+    intros IH. induction args as [|a args IHa]; intros [|spc l] ps acc pa fol SD SZ OKA SK; try discriminate.
+    - cbn [unparse_items flat_map length arg_nodes fst]. rewrite app_nil_r. replace (pa + 0) with pa by lia.
+      reflexivity.
+    - cbn [ok_args] in OKA. apply andb_true_iff in OKA. destruct OKA as [OKA OKR].
+      apply andb_true_iff in OKA. destruct OKA as [KD OKI].
+      destruct (a_kind spc) as [aps| | |] eqn:AK; try discriminate.
+      destruct a as [|ws b tr| |]; try discriminate. destruct ws; [|discriminate].
+      set (ps' := apply_adelta ps (a_delta spc)) in *.
+      assert (SD' : Std cx ps') by (apply std_adelta; exact SD).
+      rewrite ok_item_grp in OKI. apply andb_true_iff in OKI. destruct OKI as [OKI OKB].
+      apply andb_true_iff in OKI. destruct OKI as [_ W].
+      rewrite lsize_cons in SZ. cbn [isize] in SZ. fold (lsize b) in SZ.
+      assert (SK' : skipn pa s = 123%N :: unparse_items b ++ tr ++ 125%N :: (unparse_items args ++ fol)).
+      { unfold unparse_items in *. cbn [flat_map unparse_item app] in SK.
+        rewrite <- !app_assoc in SK. cbn [app] in SK. rewrite <- ?app_assoc in SK. exact SK. }
+      assert (TP : forall q, Std cx q -> impl_peek q s pa = TokOk (mk TkBraceOpen [123%N] pa (S pa) [] [])).
+      { intros q SQ. rewrite (impl_peek_dispatch q s pa [] 123%N _ eq_refl SK' space_123). cbn [length].
+        rewrite Nat.add_0_r. apply (dispatch_open cx q (std_view_of cx q SQ)). }
+      pose proof (grp_run n IH ps' pa [] b tr (unparse_items args ++ fol) SD' ltac:(lia) W OKB SK') as G.
+      pose proof (rule_texpr s cx _ ps' aps aps true pa _ _ (TP _ (std_no_envs cx ps' SD')) G) as G2.
+      pose proof (rule_tstdarg s cx _ ps' aps pa _ _ G2) as G3.
+      set (nd := node_of cx ps' pa (Grp [] b tr)) in *.
+      set (pe := pa + 1 + length (unparse_items b) + length tr + 1) in *.
+      assert (PE : pe = pa + ilen (Grp [] b tr)) by (rewrite ilen_grp; cbn [length]; unfold pe; lia).
+      assert (SKr : skipn pe s = unparse_items args ++ fol).
+      { change (123%N :: unparse_items b ++ tr ++ 125%N :: unparse_items args ++ fol)
+          with ([123%N] ++ unparse_items b ++ tr ++ [125%N] ++ unparse_items args ++ fol) in SK'.
+        apply skipn_shift in SK'. apply skipn_shift in SK'. apply skipn_shift in SK'. apply skipn_shift in SK'.
+        cbn [length] in SK'. exact SK'. }
+      pose proof (IHa l ps (acc ++ [nd]) pe fol SD ltac:(lia) OKR SKr) as A.
+      set (N0 := 6 + 8 * length (unparse_items b) + 8 * length (unparse_items args)).
+      assert (L : length (unparse_items (Grp [] b tr :: args)) = ilen (Grp [] b tr) + length (unparse_items args)).
+      { unfold unparse_items, ilen. cbn [flat_map]. rewrite app_length. reflexivity. }
+      apply (lift (S N0)); [|discriminate|rewrite L, ilen_grp; unfold N0; cbn [length]; lia].
+      rewrite <- AK in G3.
+      apply (rule_targs_cons s cx N0 ps spc l acc pa _ nd pe _ (TP ps SD)).
+      + apply (lift _ N0) in G3; [exact G3|discriminate|unfold N0; lia].
+      + apply (lift _ N0) in A; [|discriminate|unfold N0; lia]. rewrite A.
+        cbn [arg_nodes fst snd]. fold ps'. fold nd. rewrite <- PE, <- app_assoc. cbn [app].
+        rewrite L, PE. f_equal. lia.
+  Qed.
